@@ -643,6 +643,11 @@ class ElemEngine:
         if p in ('core::slice::<impl [T]>::split_at', 'core::slice::<impl [T]>::split_first'):
             c = self.content(env, a[0])
             return ('tuple', (c, c))
+        if p == 'std::iter::Iterator::chain' and len(a) == 2:
+            x, y = self.ev(env, a[0]), self.ev(env, a[1])
+            if is_tuple(x) or is_tuple(y):
+                return top('chain of tuple iterators')
+            return flat(x) | flat(y)
         if p == 'std::iter::Iterator::unzip':
             it = self.item_value(env, a[0])
             if is_tuple(it):
